@@ -19,8 +19,9 @@
    generated log, and as reference the same parsed log through the library stages with channels that never fill:
      hdr: "shape":"plain"|"sort"|"filter"|"devfull","sorted":bool,"ref_count":n,"ref_seq":h,"ref_bag":h
           (seq = order-sensitive hash, bag = multiset hash of the messages, over the fields a DLT file keeps)
-     {"ev":"convert_exit","code":c,"timed_out":bool,"waited_ms":w}      the process ended (or was killed after 120 s)
+     {"ev":"convert_exit","code":c,"timed_out":bool,"waited_ms":w}      the process ended (or was killed after 90 s)
      {"ev":"convert_out","count":n,"seq":h,"bag":h}                      the written file, re-read (not for devfull)
+     {"ev":"stalled",..}                                                  even the reference run hung: no action matches
    Contract: the process ends by itself - also when its consumer, the writer thread, fails at once (-o /dev/full); otherwise
    exit code 0 and the written messages are the reference's: same count and multiset, same sequence unless sorted.
 
